@@ -10,10 +10,10 @@ namespace DirectVerif.Bridge.C12
 open DirectVerif DirectVerif.Dataset DirectVerif.Gen.C12
 
 theorem window_lo_eq (s c n len : Int) : window_lo s c n len = windowLo s c := by
-  simp only [window_lo, windowLo, pyMax]; omega
+  simp only [window_lo, windowLo, pyMax]; first | done | omega
 
 theorem window_hi_eq (s c n len : Int) : window_hi s c n len = windowHi s c n := by
-  simp only [window_hi, windowHi, pyMin]; omega
+  simp only [window_hi, windowHi, pyMin]; first | done | omega
 
 theorem window_short_eq (s c n len : Int) : window_short s c n len = windowShort len c := by
   simp only [window_short, windowShort]
